@@ -33,11 +33,13 @@ type Interp struct {
 	memo  map[string]*Result
 	stack map[string]bool
 	// Members: verified membership helpers f(x, list) / f(list, x) -> index of the string parameter
-	Members map[string]int
+	Members     map[string]int
+	immut       map[*types.Var]bool
+	helperDepth int
 }
 
 func NewInterp(e *Env, pkg *packages.Package, vars map[string]*pats.Var) *Interp {
-	in := &Interp{E: e, Pkg: pkg, Vars: vars, funcs: map[string]*ast.FuncDecl{}, memo: map[string]*Result{}, stack: map[string]bool{}, Members: map[string]int{}}
+	in := &Interp{E: e, Pkg: pkg, Vars: vars, funcs: map[string]*ast.FuncDecl{}, memo: map[string]*Result{}, stack: map[string]bool{}, Members: map[string]int{}, immut: map[*types.Var]bool{}}
 	for _, f := range pkg.Syntax {
 		for _, d := range f.Decls {
 			if fd, ok := d.(*ast.FuncDecl); ok && fd.Recv == nil && fd.Body != nil {
@@ -78,9 +80,11 @@ func (in *Interp) fail(format string, args ...any) { panic(undecided{fmt.Sprintf
 // strT is a string expressed as a transformation of the current subject (the handler's parameter or a loop element).
 // pre maps a language over the string's value to the language over the subject.
 type strT struct {
-	pre   func(L *relang.DFA) *relang.DFA
-	exact bool
-	desc  string
+	konst   string // the value, when isConst
+	isConst bool
+	pre     func(L *relang.DFA) *relang.DFA
+	exact   bool
+	desc    string
 }
 
 // listT is a []string derived from the subject.
@@ -88,7 +92,8 @@ type listT struct {
 	kind string // split | splitvalues | singleton | sub | flatten | filter | multisplit
 	sep  string
 	src  *strT
-	from int    // for sub: xs[from:]
+	from int    // for sub: xs[from:to]
+	to   int    // for sub: exclusive end, -1 = to the end
 	base *listT // for sub/flatten/filter
 	drop string // filter: elements equal to drop are removed
 	desc string
@@ -195,7 +200,13 @@ func (in *Interp) block(stmts []ast.Stmt, ev *env, A *relang.DFA) (T, F, N *rela
 			return T, F, in.E.Empty()
 		case *ast.IfStmt:
 			if s.Init != nil {
-				in.fail("if with init statement")
+				// if x := e; cond { … }: x is scoped to the statement; unique names make a plain binding equivalent
+				switch st := s.Init.(type) {
+				case *ast.AssignStmt:
+					in.assign(st, ev)
+				default:
+					in.fail("if with an init statement that is not an assignment")
+				}
 			}
 			c := in.cond(s.Cond, ev)
 			if !c.exact {
@@ -226,6 +237,11 @@ func (in *Interp) block(stmts []ast.Stmt, ev *env, A *relang.DFA) (T, F, N *rela
 				in.joinEnv(ev, ev1, ev2, relang.Inter(cur, c.pos), relang.Inter(cur, c.neg))
 			}
 			cur = relang.Union(n1, n2)
+		case *ast.SwitchStmt:
+			t, f, n := in.switchStmt(s, ev, cur)
+			T = relang.Union(T, t)
+			F = relang.Union(F, f)
+			cur = n
 		case *ast.AssignStmt:
 			in.assign(s, ev)
 		case *ast.DeclStmt:
@@ -348,7 +364,7 @@ func (in *Interp) value(e ast.Expr, ev *env) any {
 					return in.E.All()
 				}
 				return in.E.Empty()
-			}, exact: true, desc: fmt.Sprintf("%q", s)}
+			}, exact: true, desc: fmt.Sprintf("%q", s), konst: s, isConst: true}
 		case constant.Int:
 			v, _ := constant.Int64Val(tv.Value)
 			return int(v)
@@ -361,8 +377,14 @@ func (in *Interp) value(e ast.Expr, ev *env) any {
 		}
 		// package-level keyword list
 		if obj, ok := in.Pkg.TypesInfo.Uses[x].(*types.Var); ok && obj.Parent() == in.Pkg.Types.Scope() {
+			if !in.pkgVarImmutable(obj) {
+				in.fail("package-level variable %s is assigned somewhere in the package", x.Name)
+			}
 			if kw := in.globalKeywords(x.Name); kw != nil {
 				return kw
+			}
+			if fs := in.globalFuncs(x.Name); fs != nil {
+				return fs
 			}
 		}
 		in.fail("unknown identifier %s", x.Name)
@@ -419,14 +441,25 @@ func (in *Interp) value(e ast.Expr, ev *env) any {
 		return in.elem(lv, idx, ev)
 	case *ast.SliceExpr:
 		lv, ok := in.value(x.X, ev).(*listT)
-		if !ok || x.High != nil || x.Low == nil {
+		if !ok || x.Max != nil {
 			in.fail("unsupported slice expression")
 		}
-		lo, ok := in.value(x.Low, ev).(int)
-		if !ok {
-			in.fail("non-constant slice bound")
+		lo, hi := 0, -1
+		if x.Low != nil {
+			v, ok := in.value(x.Low, ev).(int)
+			if !ok {
+				in.fail("non-constant slice bound")
+			}
+			lo = v
 		}
-		return &listT{kind: "sub", base: lv, from: lo, desc: fmt.Sprintf("%s[%d:]", lv.desc, lo)}
+		if x.High != nil {
+			v, ok := in.value(x.High, ev).(int)
+			if !ok {
+				in.fail("non-constant slice bound")
+			}
+			hi = v
+		}
+		return &listT{kind: "sub", base: lv, from: lo, to: hi, desc: fmt.Sprintf("%s[%d:%d]", lv.desc, lo, hi)}
 	case *ast.BinaryExpr, *ast.UnaryExpr:
 		return in.cond(e, ev)
 	}
@@ -506,7 +539,7 @@ func (in *Interp) call(c *ast.CallExpr, ev *env) any {
 		return v
 	}
 	cs := func(i int) string {
-		s, ok := in.constString(c.Args[i])
+		s, ok := in.cstr(c.Args[i], ev)
 		if !ok {
 			in.fail("%s: argument %d is not a constant", name, i)
 		}
@@ -578,6 +611,15 @@ func (in *Interp) call(c *ast.CallExpr, ev *env) any {
 			}
 		}
 		in.fail("unsupported string(...) conversion")
+	case "make":
+		if len(c.Args) >= 2 {
+			if tv, ok := in.Pkg.TypesInfo.Types[c.Args[0]]; ok && tv.IsType() && tv.Type.String() == "[]string" {
+				if n, ok := in.value(c.Args[1], ev).(int); ok && n == 0 {
+					return &listT{kind: "emptylist", desc: "make([]string, 0)"}
+				}
+			}
+		}
+		in.fail("unsupported make")
 	case "len":
 		return lenOf{arg(0)}
 	case "strings.Count":
@@ -638,7 +680,7 @@ func (in *Interp) call(c *ast.CallExpr, ev *env) any {
 		}
 	}
 	// another handler applied to a derived string
-	if _, ok := in.funcs[name]; ok && len(c.Args) == 1 {
+	if fdh, ok := in.funcs[name]; ok && len(c.Args) == 1 && in.isStringPred(fdh) {
 		s := str(0)
 		r := in.Lang(name)
 		if r.Undecided != "" {
@@ -648,6 +690,10 @@ func (in *Interp) call(c *ast.CallExpr, ev *env) any {
 			*ev.exact = false
 		}
 		return &cond{pos: s.pre(r.L), neg: s.pre(in.complementIfExact(r)), exact: s.exact && r.Exact}
+	}
+	// a helper of the package (not a handler): interpreted with its parameters bound to the arguments
+	if fd, ok := in.funcs[name]; ok && fd.Recv == nil {
+		return in.callHelper(fd, c, ev)
 	}
 	in.fail("unsupported call %s", name)
 	return nil
@@ -681,6 +727,17 @@ func (in *Interp) listAll(lv *listT, L *relang.DFA, ev *env) (*relang.DFA, bool)
 		ev.note("splitValues: comma parts, TrimSpace, ToLower")
 		return lv.src.pre(a), ex && lv.src.exact && in.E.lowExact
 	case "sub":
+		if lv.to >= 0 {
+			// a bounded window: every index individually
+			acc := in.E.All()
+			exact := true
+			for i := lv.from; i < lv.to; i++ {
+				el := in.elem(lv.base, i, ev)
+				acc = relang.Inter(acc, el.pre(L))
+				exact = exact && el.exact
+			}
+			return acc, exact
+		}
 		// elements from index `from` on: the first `from` components are unconstrained
 		if lv.base.kind != "split" || len([]rune(lv.base.sep)) != 1 {
 			break
@@ -772,7 +829,7 @@ func (in *Interp) recursive(a, b any, ev *env) *cond {
 		exact = exact && lv.src.exact
 		ev.note("recursiveCheck(multiSplit(v, …)): separators read as \" \"")
 	case "sub":
-		if lv.base.kind != "split" || lv.base.sep != " " {
+		if lv.base.kind != "split" || lv.base.sep != " " || lv.to >= 0 {
 			in.fail("recursiveCheck over a sub-list of a %s list", lv.base.kind)
 		}
 		C := in.E.NoRunes(' ')
@@ -1001,7 +1058,7 @@ func (in *Interp) rangeLoop(s *ast.RangeStmt, ev *env, cur *relang.DFA) (T, F, N
 
 	// schema: list builders (an empty []string filled by append in the body)
 	if len(body) == 1 {
-		if ifs, ok := body[0].(*ast.IfStmt); ok && ifs.Init == nil && len(ifs.Body.List) == 1 {
+		if ifs, ok := body[0].(*ast.IfStmt); ok && len(ifs.Body.List) == 1 {
 			dst, arg, spread, isApp := appendOf(ifs.Body.List[0])
 			if isApp {
 				if l, ok := ev.vars[dst].(*listT); !ok || l.kind != "emptylist" {
@@ -1009,42 +1066,54 @@ func (in *Interp) rangeLoop(s *ast.RangeStmt, ev *env, cur *relang.DFA) (T, F, N
 				}
 				// filter: if x != "k" { dst = append(dst, x) }
 				if be, ok := ast.Unparen(ifs.Cond).(*ast.BinaryExpr); ok && be.Op == token.NEQ && isIdent(be.X, x) && ifs.Else == nil && !spread && isIdent(arg, x) {
-					if k, ok := in.constString(be.Y); ok {
+					if k, ok := in.cstr(be.Y, ev); ok {
 						ev.vars[dst] = &listT{kind: "filter", base: lv, drop: k, desc: fmt.Sprintf("filter(%s,!=%q)", lv.desc, k)}
 						return in.E.Empty(), in.E.Empty(), cur
 					}
 				}
-				// flatten: if len(strings.Split(x, sep)) == 2 { dst = append(dst, strings.Split(x, sep)...) } else { dst = append(dst, x) }
+				// flatten: a part that splits into exactly two on sep is replaced by the two, any other part is kept:
+				//   if len(strings.Split(x, sep)) == 2 { dst = append(dst, strings.Split(x, sep)...) } else { dst = append(dst, x) }
+				// with the variants  strings.Count(x, sep) == 1  and  if p := strings.Split(x, sep); len(p) == 2 { … p... }
 				if be, ok := ast.Unparen(ifs.Cond).(*ast.BinaryExpr); ok && be.Op == token.EQL && spread {
 					if eb, ok := ifs.Else.(*ast.BlockStmt); ok && len(eb.List) == 1 {
 						d2, a2, sp2, ok2 := appendOf(eb.List[0])
-						lc, isLen := ast.Unparen(be.X).(*ast.CallExpr)
-						// strings.Count(x, sep) == 1 is len(strings.Split(x, sep)) == 2
-						if isLen && in.callName(lc) == "strings.Count" && len(lc.Args) == 2 && ok2 && d2 == dst && !sp2 && isIdent(a2, x) && isIdent(lc.Args[0], x) {
-							if one, isOne := in.value(be.Y, ev).(int); isOne && one == 1 {
-								sp3, isSp3 := ast.Unparen(arg).(*ast.CallExpr)
-								if isSp3 && in.callName(sp3) == "strings.Split" && isIdent(sp3.Args[0], x) {
-									k1, okA := in.constString(lc.Args[1])
-									k3, okB := in.constString(sp3.Args[1])
-									if okA && okB && k1 == k3 && len([]rune(k1)) == 1 && lv.kind == "split" && lv.sep == " " {
-										ev.vars[dst] = &listT{kind: "flatten", base: lv, sep: k1, desc: fmt.Sprintf("flatten(%s,%q)", lv.desc, k1)}
-										return in.E.Empty(), in.E.Empty(), cur
+						// the split expression bound by the if's init statement, if any
+						initName, initSep := "", ""
+						if as, ok := ifs.Init.(*ast.AssignStmt); ok && len(as.Lhs) == 1 && len(as.Rhs) == 1 {
+							if id, ok := as.Lhs[0].(*ast.Ident); ok {
+								if sp, ok := ast.Unparen(as.Rhs[0]).(*ast.CallExpr); ok && in.callName(sp) == "strings.Split" && len(sp.Args) == 2 && isIdent(sp.Args[0], x) {
+									if k, ok := in.cstr(sp.Args[1], ev); ok {
+										initName, initSep = id.Name, k
 									}
 								}
 							}
 						}
-						if ok2 && d2 == dst && !sp2 && isIdent(a2, x) && isLen && in.callName(lc) == "len" && len(lc.Args) == 1 {
-							sp1, isSp1 := ast.Unparen(lc.Args[0]).(*ast.CallExpr)
-							sp3, isSp3 := ast.Unparen(arg).(*ast.CallExpr)
-							if isSp1 && isSp3 && in.callName(sp1) == "strings.Split" && in.callName(sp3) == "strings.Split" &&
-								isIdent(sp1.Args[0], x) && isIdent(sp3.Args[0], x) {
-								k1, okA := in.constString(sp1.Args[1])
-								k3, okB := in.constString(sp3.Args[1])
-								if okA && okB && k1 == k3 && len([]rune(k1)) == 1 && lv.kind == "split" && lv.sep == " " {
-									ev.vars[dst] = &listT{kind: "flatten", base: lv, sep: k1, desc: fmt.Sprintf("flatten(%s,%q)", lv.desc, k1)}
-									return in.E.Empty(), in.E.Empty(), cur
+						splitOf := func(e ast.Expr) (string, bool) { // e denotes strings.Split(x, sep)
+							e = ast.Unparen(e)
+							if initName != "" && isIdent(e, initName) {
+								return initSep, true
+							}
+							if sp, ok := e.(*ast.CallExpr); ok && in.callName(sp) == "strings.Split" && len(sp.Args) == 2 && isIdent(sp.Args[0], x) {
+								if k, ok := in.cstr(sp.Args[1], ev); ok {
+									return k, true
 								}
 							}
+							return "", false
+						}
+						condSep, condOK := "", false
+						if lc, isCall := ast.Unparen(be.X).(*ast.CallExpr); isCall {
+							n, isN := in.value(be.Y, ev).(int)
+							switch {
+							case in.callName(lc) == "len" && len(lc.Args) == 1 && isN && n == 2:
+								condSep, condOK = splitOf(lc.Args[0])
+							case in.callName(lc) == "strings.Count" && len(lc.Args) == 2 && isIdent(lc.Args[0], x) && isN && n == 1:
+								condSep, condOK = in.cstr(lc.Args[1], ev)
+							}
+						}
+						thenSep, thenOK := splitOf(arg)
+						if ok2 && d2 == dst && !sp2 && isIdent(a2, x) && condOK && thenOK && condSep == thenSep && len([]rune(condSep)) == 1 && lv.kind == "split" && lv.sep == " " {
+							ev.vars[dst] = &listT{kind: "flatten", base: lv, sep: condSep, desc: fmt.Sprintf("flatten(%s,%q)", lv.desc, condSep)}
+							return in.E.Empty(), in.E.Empty(), cur
 						}
 					}
 				}
@@ -1112,4 +1181,254 @@ func (in *Interp) rangeLoop(s *ast.RangeStmt, ev *env, cur *relang.DFA) (T, F, N
 		}
 	}
 	return T, F, N
+}
+
+// switchStmt interprets `switch tag { case a, b: … default: … }` and `switch { case cond: … }` as the equivalent
+// if / else-if chain (no fallthrough).
+func (in *Interp) switchStmt(s *ast.SwitchStmt, ev *env, cur *relang.DFA) (T, F, N *relang.DFA) {
+	T, F, N = in.E.Empty(), in.E.Empty(), in.E.Empty()
+	if s.Init != nil {
+		if as, ok := s.Init.(*ast.AssignStmt); ok {
+			in.assign(as, ev)
+		} else {
+			in.fail("switch with an init statement that is not an assignment")
+		}
+	}
+	var def *ast.CaseClause
+	rest := cur
+	for _, cc := range s.Body.List {
+		cl := cc.(*ast.CaseClause)
+		for _, st := range cl.Body {
+			if br, ok := st.(*ast.BranchStmt); ok && br.Tok == token.FALLTHROUGH {
+				in.fail("fallthrough in a switch")
+			}
+		}
+		if cl.List == nil {
+			def = cl
+			continue
+		}
+		var c *cond
+		for _, e := range cl.List {
+			var ce *cond
+			if s.Tag != nil {
+				ce = in.compare(&ast.BinaryExpr{X: s.Tag, Op: token.EQL, Y: e}, ev)
+			} else {
+				ce = in.cond(e, ev)
+			}
+			if c == nil {
+				c = ce
+			} else {
+				c = &cond{pos: relang.Union(c.pos, ce.pos), neg: relang.Inter(c.neg, ce.neg), exact: c.exact && ce.exact}
+			}
+		}
+		if !c.exact {
+			*ev.exact = false
+		}
+		evc := ev.clone()
+		t, f, n := in.block(cl.Body, evc, relang.Inter(rest, c.pos))
+		T, F, N = relang.Union(T, t), relang.Union(F, f), relang.Union(N, n)
+		rest = relang.Inter(rest, c.neg)
+	}
+	if def != nil {
+		evc := ev.clone()
+		t, f, n := in.block(def.Body, evc, rest)
+		T, F, N = relang.Union(T, t), relang.Union(F, f), relang.Union(N, n)
+	} else {
+		N = relang.Union(N, rest)
+	}
+	return T, F, N
+}
+
+// pkgVarImmutable: no assignment, increment or address-of anywhere in the package has the variable at its root.
+func (in *Interp) pkgVarImmutable(v *types.Var) bool {
+	if r, ok := in.immut[v]; ok {
+		return r
+	}
+	root := func(e ast.Expr) types.Object {
+		for {
+			switch x := ast.Unparen(e).(type) {
+			case *ast.IndexExpr:
+				e = x.X
+			case *ast.SliceExpr:
+				e = x.X
+			case *ast.StarExpr:
+				e = x.X
+			case *ast.SelectorExpr:
+				e = x.X
+			case *ast.Ident:
+				return in.Pkg.TypesInfo.Uses[x]
+			default:
+				return nil
+			}
+		}
+	}
+	ok := true
+	for _, f := range in.Pkg.Syntax {
+		ast.Inspect(f, func(n ast.Node) bool {
+			switch x := n.(type) {
+			case *ast.AssignStmt:
+				for _, l := range x.Lhs {
+					if root(l) == types.Object(v) {
+						ok = false
+					}
+				}
+			case *ast.IncDecStmt:
+				if root(x.X) == types.Object(v) {
+					ok = false
+				}
+			case *ast.UnaryExpr:
+				if x.Op == token.AND && root(x.X) == types.Object(v) {
+					ok = false
+				}
+			case *ast.RangeStmt:
+				if x.Tok == token.ASSIGN {
+					for _, l := range []ast.Expr{x.Key, x.Value} {
+						if l != nil && root(l) == types.Object(v) {
+							ok = false
+						}
+					}
+				}
+			}
+			return ok
+		})
+	}
+	in.immut[v] = ok
+	return ok
+}
+
+// globalFuncs: a package-level []func(string) bool literal of handler names.
+func (in *Interp) globalFuncs(name string) *funcsT {
+	for _, f := range in.Pkg.Syntax {
+		for _, d := range f.Decls {
+			gd, ok := d.(*ast.GenDecl)
+			if !ok {
+				continue
+			}
+			for _, sp := range gd.Specs {
+				vs, ok := sp.(*ast.ValueSpec)
+				if !ok {
+					continue
+				}
+				for i, n := range vs.Names {
+					if n.Name != name || i >= len(vs.Values) {
+						continue
+					}
+					cl, ok := vs.Values[i].(*ast.CompositeLit)
+					if !ok {
+						return nil
+					}
+					if tv, ok := in.Pkg.TypesInfo.Types[cl]; !ok || tv.Type.String() != "[]func(string) bool" {
+						return nil
+					}
+					var names []string
+					for _, el := range cl.Elts {
+						id, ok := el.(*ast.Ident)
+						if !ok || in.funcs[id.Name] == nil {
+							return nil
+						}
+						names = append(names, id.Name)
+					}
+					return &funcsT{names}
+				}
+			}
+		}
+	}
+	return nil
+}
+
+// callHelper interprets a call of a non-handler function of the package: its parameters are bound to the abstract
+// values of the arguments (all still expressed over the current subject).  A bool result is the condition under which
+// the body returns true; any other result is the abstract value of the single top-level return expression.
+func (in *Interp) callHelper(fd *ast.FuncDecl, c *ast.CallExpr, ev *env) any {
+	name := fd.Name.Name
+	if in.helperDepth > 6 {
+		in.fail("helper calls nested too deeply at %s", name)
+	}
+	if in.stack["helper:"+name] {
+		in.fail("recursive helper %s", name)
+	}
+	if fd.Type.Results == nil || len(fd.Type.Results.List) != 1 || len(fd.Type.Results.List[0].Names) > 1 {
+		in.fail("helper %s does not have exactly one result", name)
+	}
+	hv := &env{vars: map[string]any{}, subject: ev.subject, exact: ev.exact, schemas: ev.schemas}
+	i := 0
+	for _, f := range fd.Type.Params.List {
+		if _, variadic := f.Type.(*ast.Ellipsis); variadic {
+			in.fail("variadic helper %s", name)
+		}
+		names := f.Names
+		if len(names) == 0 {
+			i++
+			continue
+		}
+		for _, n := range names {
+			if i >= len(c.Args) {
+				in.fail("helper %s: argument count", name)
+			}
+			hv.vars[n.Name] = in.value(c.Args[i], ev)
+			i++
+		}
+	}
+	if i != len(c.Args) {
+		in.fail("helper %s: argument count", name)
+	}
+	in.stack["helper:"+name] = true
+	in.helperDepth++
+	defer func() { in.stack["helper:"+name] = false; in.helperDepth-- }()
+	ev.note("helper " + name + " interpreted at its call site")
+	rt := in.Pkg.TypesInfo.TypeOf(fd.Type.Results.List[0].Type)
+	if b, ok := rt.Underlying().(*types.Basic); ok && b.Kind() == types.Bool {
+		t, f, n := in.block(fd.Body.List, hv, in.E.All())
+		if !n.IsEmpty() {
+			in.fail("helper %s can fall off its end", name)
+		}
+		return &cond{pos: t, neg: f, exact: *ev.exact}
+	}
+	// value-returning helper: straight-line statements and list-building loops, then `return expr`
+	for k, st := range fd.Body.List {
+		switch x := st.(type) {
+		case *ast.AssignStmt:
+			in.assign(x, hv)
+		case *ast.DeclStmt:
+			in.decl(x, hv)
+		case *ast.RangeStmt:
+			t, f, _ := in.rangeLoop(x, hv, in.E.All())
+			if !t.IsEmpty() || !f.IsEmpty() {
+				in.fail("helper %s: a loop returns", name)
+			}
+		case *ast.ReturnStmt:
+			if k != len(fd.Body.List)-1 || len(x.Results) != 1 {
+				in.fail("helper %s: unsupported return", name)
+			}
+			return in.value(x.Results[0], hv)
+		default:
+			in.fail("helper %s: unsupported statement %T", name, st)
+		}
+	}
+	in.fail("helper %s has no final return", name)
+	return nil
+}
+
+func (in *Interp) isStringPred(fd *ast.FuncDecl) bool {
+	t := fd.Type
+	if fd.Recv != nil || t.Params == nil || len(t.Params.List) != 1 || len(t.Params.List[0].Names) != 1 || t.Results == nil || len(t.Results.List) != 1 {
+		return false
+	}
+	p, ok := t.Params.List[0].Type.(*ast.Ident)
+	r, ok2 := t.Results.List[0].Type.(*ast.Ident)
+	return ok && ok2 && p.Name == "string" && r.Name == "bool"
+}
+
+// cstr: a constant string — a constant expression, or an identifier the environment binds to one (a helper's
+// parameter that was handed a constant).
+func (in *Interp) cstr(e ast.Expr, ev *env) (string, bool) {
+	if s, ok := in.constString(e); ok {
+		return s, true
+	}
+	if id, ok := ast.Unparen(e).(*ast.Ident); ok && ev != nil {
+		if sv, ok := ev.vars[id.Name].(*strT); ok && sv.isConst {
+			return sv.konst, true
+		}
+	}
+	return "", false
 }
